@@ -107,8 +107,23 @@ class SigmaCollection:
             else self.rules
         )
 
-        # Sort rules by reference order
-        self.rules = list(sorted(self.rules))
+        # Sort rules by reference order: each rule is preceded by all rules it references (directly
+        # or indirectly), apart from that the order of the rules is kept.
+        sorted_rules: list[SigmaRule | SigmaCorrelationRule] = []
+        visited: set[int] = set()
+
+        def add_rule(rule: SigmaRule | SigmaCorrelationRule) -> None:
+            if id(rule) in visited:
+                return
+            visited.add(id(rule))
+            if isinstance(rule, SigmaCorrelationRule):
+                for rule_ref in rule.referenced_rules:
+                    add_rule(rule_ref.rule)
+            sorted_rules.append(rule)
+
+        for rule in self.rules:
+            add_rule(rule)
+        self.rules = sorted_rules
 
     @classmethod
     def from_dicts(
